@@ -186,6 +186,8 @@ where
 {
     let n = fwd.len();
     f.insert("kos".into(), run(|| sccs_json(algo::kosaraju_scc(g), inv)));
+    #[allow(deprecated)]
+    f.insert("sccdep".into(), run(|| sccs_json(algo::scc(g), inv)));       // the deprecated alias
     if directed {
         let topo = |space: Option<&mut algo::DfsSpace<G::NodeId, G::Map>>| match algo::toposort(g, space) {
             Ok(o) => json!(["order", o.iter().map(|x| inv[x]).collect::<Vec<_>>()]),
@@ -1082,6 +1084,23 @@ where
         let mut seq2 = vec![];
         while let Some(x) = t.next(g) { seq2.push(inv[&x]); if seq2.len() > 4 * n + 8 { break; } }
         json!({"seq": seq, "none_again": again, "seq2": seq2})
+    }));
+    // Topo::with_initials: start sets with duplicates and with nodes that have incoming edges (to be ignored)
+    f.insert(format!("topoi{}", tag), run(|| {
+        let all: Vec<G::NodeId> = g.node_identifiers().collect();
+        let mut sets: Vec<Vec<G::NodeId>> = vec![];
+        for p in 0..2usize {
+            let mut v: Vec<G::NodeId> = all.iter().copied().filter(|x| inv[x] % 2 == p).collect();
+            if let Some(&first) = v.first() { v.push(first); }
+            sets.push(v);
+        }
+        sets.push(all.iter().chain(all.iter()).copied().collect());
+        json!(sets.iter().map(|init| {
+            let mut t = Topo::with_initials(g, init.iter().copied());
+            let mut seq = vec![];
+            while let Some(x) = t.next(g) { seq.push(inv[&x]); if seq.len() > 4 * n + 8 { break; } }
+            json!({"init": init.iter().map(|x| inv[x]).collect::<Vec<_>>(), "seq": seq, "none_again": t.next(g).is_none()})
+        }).collect::<Vec<_>>())
     }));
 }
 
